@@ -663,6 +663,54 @@ Section ResumeProofs.
       destruct (Nat.eqb_spec e (S epoch)); lia.
   Qed.
 
+  Lemma evt_deleted_dec : forall e : rs_evt, e = EDeleted \/ e <> EDeleted.
+  Proof. intro e. destruct e; [right|right|right|left]; congruence. Qed.
+
+  (* one live (not DELETED) event of k: the phase invariant is kept and the budget is respected *)
+  Lemma at_most_once_step : forall regs k h ms i phase,
+    NoDup (map hd_ix regs) -> In h regs -> rs_is_resume_handler h = true ->
+    in_key i = k -> in_evt i <> EDeleted ->
+    phase_inv k ms phase ->
+    (phase = 1 -> rs_prog_of (in_view i) (hd_id h) = PFinished) ->
+    let o := snd (step regs ms i) in
+    let phase' := rs_phase_next keqb k (hd_ix h) phase i o in
+    phase_inv k (fst (step regs ms i)) phase' /\
+    (if rs_succeeded (hd_ix h) o then 1 else 0) + allowance false phase' <= allowance false phase.
+  Proof.
+    intros regs k h ms i phase ND Hin Hr Hk Hev Hinv Hc o phase'.
+    assert (Ek : keqb (in_key i) k = true) by (apply keqb_spec; exact Hk).
+    assert (Hinv' : forall ph', (2 <= ph' -> ob_handled_after o = true) -> phase_inv k (fst (step regs ms i)) ph').
+    { intros ph' Hh Hge. rewrite <- Hk. rewrite step_same_mem by exact Hev.
+      eexists. split; [reflexivity|]. simpl. apply Hh. exact Hge. }
+    unfold phase', rs_phase_next. rewrite Ek. fold o.
+    destruct phase as [|[|phase]].
+    - (* not yet succeeded *)
+      destruct (rs_succeeded (hd_ix h) o) eqn:Su.
+      + destruct (ob_handled_after o) eqn:Ha.
+        * split; [apply Hinv'; intros _; reflexivity | simpl; lia].
+        * split; [apply Hinv'; intro; lia | simpl; lia].
+      + split; [apply Hinv'; intro; lia | simpl; lia].
+    - (* succeeded, cycle open: the record is finished *)
+      assert (Hfin : rs_succeeded (hd_ix h) o = false).
+      { unfold o. apply no_success_when_finished; [exact ND | exact Hin | apply Hc; reflexivity]. }
+      rewrite Hfin. destruct (ob_handled_after o) eqn:Ha.
+      + split; [apply Hinv'; intros _; reflexivity | simpl; lia].
+      + split; [apply Hinv'; intro; lia | simpl; lia].
+    - (* a cycle has closed: the memory says "handled" *)
+      destruct (Hinv ltac:(lia)) as [m [Fm Hhm]].
+      assert (Hrec : recalled ms i = m) by (apply recalled_found; rewrite Hk; exact Fm).
+      assert (Hni : initial_of (recalled ms i) = false) by (rewrite Hrec; unfold initial_of; rewrite Hhm; apply andb_false_r).
+      assert (Hfin : rs_succeeded (hd_ix h) o = false) by (unfold o; apply no_success_when_not_initial; assumption).
+      assert (Ha : ob_handled_after o = true) by (unfold o; apply handled_monotone; rewrite Hrec; exact Hhm).
+      rewrite Hfin. split; [apply Hinv'; intros _; exact Ha | simpl; lia].
+  Qed.
+
+  Lemma bound_add : forall e epoch c n n', c + n' <= n -> (if Nat.eqb epoch e then c else 0) + bound e epoch n' <= bound e epoch n.
+  Proof.
+    intros e epoch c n n' H. unfold bound.
+    destruct (Nat.eqb_spec epoch e); destruct (Nat.ltb_spec e epoch); destruct (Nat.eqb_spec e epoch); lia.
+  Qed.
+
   Lemma at_most_once_modes : forall regs k h,
     NoDup (map hd_ix regs) -> In h regs -> rs_is_resume_handler h = true ->
     forall ls ms epoch phase (gone : bool),
@@ -687,46 +735,17 @@ Section ResumeProofs.
         destruct gone.
         { simpl in Hm. destruct Hm as [Hm _]. congruence. }
         assert (Hk : in_key i = k) by (apply keqb_spec; exact Ek).
-        destruct (in_evt i) eqn:Ev;
-          try (assert (Hnd : in_evt i <> EDeleted) by congruence).
-        4: { (* DELETED: nothing succeeds, and no event of k follows in this process *)
+        destruct (evt_deleted_dec (in_evt i)) as [Ev|Ev].
+        * (* DELETED: nothing succeeds, and no event of k follows in this process *)
           rewrite So. rewrite no_success_on_deleted_event by exact Ev. rewrite andb_false_r. simpl.
           specialize (IH ms' epoch (rs_phase_next keqb k (hd_ix h) phase i o) true Hu2 Hc2 (Hu1 eq_refl Ev) e).
-          rewrite <- Xs in IH. simpl in IH. eapply Nat.le_trans; [exact IH|]. apply bound_mono. lia. }
-        all: (* a live event of k *)
-          assert (Hinv' : forall ph', (2 <= ph' -> ob_handled_after o = true) -> phase_inv k ms' ph');
-          [ intros ph' Hh Hge; rewrite Sm, <- Hk, step_find_same, Ev; simpl; eexists; split; [reflexivity|]; simpl;
-            rewrite <- So; apply Hh; exact Hge |];
-          destruct phase as [|[|phase]].
-        all: try ( (* phase 0 *)
-          unfold rs_phase_next in Hc2; rewrite Ek in Hc2;
-          destruct (rs_succeeded (hd_ix h) o) eqn:Su;
-          [ destruct (ob_handled_after o) eqn:Ha;
-            [ specialize (IH ms' epoch 2 false Hu2 Hc2 (Hinv' 2 (fun _ => eq_refl)) e)
-            | specialize (IH ms' epoch 1 false Hu2 Hc2 (fun Hge => ltac:(lia)) e) ];
-            rewrite <- Xs in IH; simpl in IH; unfold allowance; simpl;
-            unfold bound in *; destruct (Nat.ltb e epoch); destruct (Nat.eqb e epoch); simpl in *; lia
-          | specialize (IH ms' epoch 0 false Hu2 Hc2 (fun Hge => ltac:(lia)) e);
-            rewrite <- Xs in IH; rewrite andb_false_r; simpl; exact IH ]; fail).
-        all: try ( (* phase 1: the record is finished *)
-          assert (Hfin : rs_succeeded (hd_ix h) o = false)
-            by (rewrite So; apply no_success_when_finished; [exact ND | exact Hin | apply Hc1; [exact Ek | reflexivity]]);
-          rewrite Hfin, andb_false_r; simpl;
-          unfold rs_phase_next in Hc2; rewrite Ek in Hc2;
-          destruct (ob_handled_after o) eqn:Ha;
-          [ specialize (IH ms' epoch 2 false Hu2 Hc2 (Hinv' 2 (fun _ => eq_refl)) e)
-          | specialize (IH ms' epoch 1 false Hu2 Hc2 (fun Hge => ltac:(lia)) e) ];
-          rewrite <- Xs in IH; simpl in IH; exact IH; fail).
-        all: (* phase >= 2: the memory says "handled" *)
-          destruct (Hm ltac:(lia)) as [m [Fm Hhm]];
-          assert (Hrec : recalled ms i = m) by (unfold recalled; rewrite Hk, Fm; reflexivity);
-          assert (Hni : initial_of (recalled ms i) = false) by (rewrite Hrec; unfold initial_of; rewrite Hhm; apply andb_false_r);
-          assert (Hfin : rs_succeeded (hd_ix h) o = false) by (rewrite So; apply no_success_when_not_initial; assumption);
-          rewrite Hfin, andb_false_r; simpl;
-          unfold rs_phase_next in Hc2; rewrite Ek in Hc2;
-          assert (Ha : ob_handled_after o = true) by (rewrite So; apply handled_monotone; rewrite Hrec; exact Hhm);
-          specialize (IH ms' epoch 2 false Hu2 Hc2 (Hinv' 2 (fun _ => Ha)) e);
-          rewrite <- Xs in IH; simpl in IH; exact IH.
+          rewrite <- Xs in IH. simpl in IH. eapply Nat.le_trans; [exact IH|]. apply bound_mono. lia.
+        * destruct (at_most_once_step regs k h ms i phase ND Hin Hr Hk Ev Hm (Hc1 eq_refl)) as [Hinv' Hbud].
+          rewrite <- So, <- Sm in Hinv'. rewrite <- So in Hbud.
+          specialize (IH ms' epoch (rs_phase_next keqb k (hd_ix h) phase i o) false Hu2 Hc2 Hinv' e).
+          rewrite <- Xs in IH. rewrite andb_true_r.
+          eapply Nat.le_trans; [|apply (bound_add e epoch _ _ _ Hbud)].
+          destruct (Nat.eqb epoch e); destruct (rs_succeeded (hd_ix h) o); simpl; lia.
       + (* an event of another object *)
         rewrite andb_false_r. simpl.
         unfold rs_phase_next in Hc2. rewrite Ek in Hc2.
